@@ -14,13 +14,13 @@ CHECKS = {
  "C14": dict(
   engine="E3 product enumerator",
   technique="exhaustive enumeration of Annex B streams (every NAL unit size, every start-code length pattern, content classes, all type sequences) against a byte-at-a-time reference scanner and the generating unit list",
-  text="Streams of 1-3 (thorough: 4) NAL units with every size 1..20 (26), every start-code length pattern in {3,4}^n and three content classes (filler, interior zeros, interior 00 00 03), plus all type sequences of length <= 4 over the AVC (1,5,6,7,8,9,12,14,20) and HEVC (0,1,16..23,32..40) type alphabets with the RAP range 16..23 as oracle, are pushed through ExtractNalusFromByteStream, ConvertByteStreamToNaluSample, ConvertSampleToByteStream, GetNalusFromSample, FindNaluTypes[UpToFirstVideo], ContainsNaluType, IsIDR/IsRAP, HasParameterSets, GetParameterSets[FromByteStream], ExtractNalusOfTypeFromByteStream and GetFirstAVCVideoNALUFromByteStream; every result must equal what the generating unit list implies.",
+  text="Streams of 1-3 (thorough: 4) NAL units with every size 1..20 (26), every start-code length pattern in {3,4}^n and three content classes (filler, interior zeros, interior 00 00 03), plus all type sequences of length <= 4 over the AVC (1,5,6,7,8,9,12,14,20) and HEVC (0,1,16..23,32..40) type alphabets with the RAP range 16..23 as oracle, are pushed through ExtractNalusFromByteStream, ConvertByteStreamToNaluSample, ConvertSampleToByteStream, GetNalusFromSample, FindNaluTypes[UpToFirstVideo], ContainsNaluType, IsIDR/IsRAP, HasParameterSets, GetParameterSets[FromByteStream], ExtractNalusOfTypeFromByteStream and GetFirstAVCVideoNALUFromByteStream; every result must equal what the generating unit list implies; GetNaluType/IsVideoNaluType of both codecs over all 256 values.",
   note="Well-formed streams only (units non-empty, emulation-free, last byte non-zero, NAL type 0 excluded). Sizes are bounded; the word-at-a-time scanner is exercised at every alignment modulo 8 and every tail length.",
   design="3 C14"),
  "C06": dict(
   engine="E3 product enumerator",
   technique="exhaustive product enumeration of clear fragmented files (codec x scheme x IV x key x NAL-unit layouts at the size thresholds x fragment shapes x extra-box subsets); real encrypt -> encode -> decode -> decrypt cycle; result read by an independent fragment reader and box walker and compared with the generator's ground truth",
-  text="~77 000 (thorough: ~1.2 million) files: AVC/HEVC samples of 1-3 NAL units (slice NAL units with real headers from the C15 serializers in 3 variants, non-VCL units) with every unit size 1..420 (thorough 1..1200, 4095..4097, 65535..70000), all class patterns of 2 and 3 units over size subsets, 39..43 protected units per sample, clear runs around 65535/131070 bytes, AAC frame sizes 1..200 (2100), 5 IVs incl. counter wrap and 8-byte, 2 keys, 1-2 fragments, every subset of <= 3 (4) of 10 extra boxes in moof/traf. After DecodeFile/InitProtect/EncryptFragment/Encode and DecodeFile/DecryptInit/DecryptSegment/Encode: every sample byte-identical, count/size/duration/flags/cto/decode time unchanged, sample entry type restored, list of all non-protection boxes unchanged, data offsets checked through the sample bytes (ref/fragref). Five third-party encrypted test files decrypt to identical sizes and timing.",
+  text="~77 000 (thorough: ~1.2 million) files: AVC/HEVC samples of 1-3 NAL units (slice NAL units with real headers from the C15 serializers in 3 variants, non-VCL units) with every unit size 1..420 (thorough 1..1200, 4095..4097, 65535..70000), all class patterns of 2 and 3 units over size subsets, 39..43 protected units per sample, clear runs around 65535/131070 bytes, AAC frame sizes 1..200 (2100), 5 IVs incl. counter wrap and 8-byte, 2 keys, 1-2 fragments, every subset of <= 3 (4) of 12 extra boxes in moof/traf (incl. sample groups of grouping type roll / rap, which are not protection signalling); every single C15 syntax deviation and every pair of slice-level deviations as parameter sets + slice header, and for cbcs the first slice-data byte with 0..5 leading zero bits. After DecodeFile/InitProtect/EncryptFragment/Encode and DecodeFile/DecryptInit/DecryptSegment/Encode: every sample byte-identical, count/size/duration/flags/cto/decode time unchanged, sample entry type restored, list of all non-protection boxes unchanged, data offsets checked through the sample bytes (ref/fragref). Five third-party encrypted test files decrypt to identical sizes and timing.",
   note="Exhaustive over the stated product, not over all payloads. One track and one trun per traf (EncryptFragment's own limits). The cmd tools' run functions (mp4ff-encrypt, mp4ff-decrypt) are driven through overlay drivers on the shape/case diagonal and their outputs compared with the API path; the full product goes through the API mirror of their call sequence.",
   design="3 C06"),
  "C07": dict(
@@ -32,7 +32,7 @@ CHECKS = {
  "C20": dict(
   engine="E5 cooperative scheduler (pre-emption-bounded stateless exploration)",
   technique="stateless model checking of the real code under a controlled cooperative scheduler: all schedules of 2-3 goroutine bodies up to a pre-emption bound at I/O-call granularity and all interleavings at API-call granularity; oracle on every schedule: per-goroutine observations equal the solo run, shared inputs unchanged, deep fingerprint of every package-level variable unchanged; plus a separate free-running race-detector pass of the same bodies",
-  text="8 bodies (DecodeFileSR->Info->EncodeSW, DecodeFile->Encode, encrypt, decrypt, Annex B + parameter-set/SEI/ADTS parsing, DecodeFileSR(own copy)->decrypt, DecodeFileSR(shared bytes)->decrypt) over the same shared input bytes; every pair (incl. a body with itself): all interleavings at API-call granularity (unbounded) and all schedules with <= 1 (thorough: <= 2) pre-emptions where every Read/Seek/Write and every SliceReader/SliceWriter method call is a scheduling point (~700 points per pair); triples at call granularity with <= 2 pre-emptions. 45 000 schedules quick, 1.8 million schedules / 1.6 billion scheduling points thorough. 32 package-level variables fingerprinted through generated accessors.",
+  text="10 bodies (DecodeFileSR->Info->EncodeSW, DecodeFile->Encode, encrypt cbcs, encrypt cenc with shared key/IV buffer, decrypt, Annex B + parameter-set/SEI/ADTS parsing, DecodeFileSR(own copy)->decrypt, DecodeFile from *bytes.Buffer over the shared bytes with 64-bit mdat headers -> encrypt / -> decrypt, DecodeFileSR(shared bytes)->decrypt) over the same shared input bytes; every pair (incl. a body with itself): all interleavings at API-call granularity (unbounded) and all schedules with <= 1 (thorough: <= 2) pre-emptions where every Read/Seek/Write and every SliceReader/SliceWriter method call is a scheduling point (~700 points per pair); triples at call granularity with <= 2 pre-emptions. 45 000 schedules quick, 1.8 million schedules / 1.6 billion scheduling points thorough. 32 package-level variables fingerprinted through generated accessors.",
   note="The scheduler sees only the points it is given; code between two points runs atomically, unsynchronised accesses in between are covered by the separate -race pass (16 goroutines, free-running), which is blind to writes done in assembly (AES). The library contains no sync primitives or go statements (re-checked by a source scan at every run). One known finding (DecodeFileSR aliasing + in-place decryption writes the shared input).",
   design="3 C20"),
  "C16": dict(
@@ -74,49 +74,49 @@ CHECKS = {
  "C12": dict(
   engine="E3 product enumerator from intended partitions + overlay driver + independent walker",
   technique="exhaustive enumeration of layouts generated from an intended partition x delimiter mechanism x decode flags x decoder; real decode/encode/UpdateSidx, output positions checked by an independent box walker",
-  text="Files are generated by a raw writer from an intended partition (1-3 segments x 1-2 fragments x 1-2 tracks) with each delimiter mechanism (styp, one or two top-level sidx, mfra/tfra, none), emsg placements, 0-2 segment-level sidx, zero/non-zero first presentation time, optional mdat lead-in and five sample-table forms (explicit trun fields, tfhd defaults, trex defaults, two truns per traf, mixed), and decoded with all four flag combinations by both decoders: the decoded partition must equal the intended one, every moof/mdat pair must be in exactly one segment in order, segment-mode re-encode must be byte-identical per fragment; then UpdateSidx(add, nonZeroEPT both ways)+Encode through the API and the add-sidx example, and anchor, contiguity, per-reference start, end of media and durations are checked against actual box positions.",
+  text="Files are generated by a raw writer from an intended partition (1-3 segments x 1-2 fragments x 1-2 tracks) with each delimiter mechanism (styp, one or two top-level sidx, mfra/tfra, none), emsg placements, 0-2 segment-level sidx, zero/non-zero first presentation time, an optional free box between top-level index and first segment (first_offset != 0), optional mdat lead-in and five sample-table forms (explicit trun fields, tfhd defaults, trex defaults, two truns per traf, mixed), and decoded with all four flag combinations by both decoders: the decoded partition must equal the intended one, every moof/mdat pair must be in exactly one segment in order, segment-mode re-encode must be byte-identical per fragment; then UpdateSidx(add, nonZeroEPT both ways)+Encode through the API and the add-sidx example, and anchor, contiguity, per-reference start, end of media and durations are checked against actual box positions.",
   note="Two known findings are listed in known_findings.txt (trun data_offset rewritten for mdat lead-in; second top-level sidx kept by UpdateSidx). Where two delimiter mechanisms compete the grouping is not judged. 1-2 samples per fragment.",
   design="3 C12"),
  "C19": dict(
   engine="E2 history explorer",
   technique="explicit enumeration (DFS) of AddEmptyTrack/Set...Descriptor histories on real InitSegment objects, every prefix a checked state; invariants + encode/decode/deep-equality round trip",
-  text="All histories of <= 2 tracks over the full product of 17 track kinds (incl. stpp/wvtt/generic media types) x 3 timescales x 6 language tags and of <= 3 (quick) / 4 (thorough) tracks over a diagonal of timescale/language are built with the public API; in every state ids, trex boxes, next-track id, handler/media-header boxes, timescale/language carriage and sample-entry contents are checked on the built tree and on the trees decoded by both decoders, together with Encode==EncodeSW, Size, re-encode identity, deep equality built vs decoded, and a fragment round trip per track id.",
+  text="All histories of <= 2 tracks over the full product of 17 track kinds (incl. stpp/wvtt/generic media types) x 3 timescales x 6 language tags and of <= 3 (quick) / 4 (thorough) tracks over a diagonal of timescale/language are built with the public API; in every state ids, trex boxes, next-track id, handler/media-header boxes, timescale/language carriage and sample-entry contents are checked on the built tree and on the trees decoded by both decoders, together with Encode==EncodeSW, Size, re-encode identity, deep equality built vs decoded, and a fragment round trip per track id; plus the full parameter products of the AAC (13 frequencies x 3 object types), AC-3, EC-3 and stpp descriptor setters as first and as second track.",
   note="Parameter sets are the captured AVC/HEVC sets used by the repository's own tests (two AVC SPS/PPS sets, one HEVC VPS/SPS/PPS set); deep equality ignores decoder position bookkeeping (StartPos).",
   design="3 C19"),
  "C05": dict(
   engine="E2 history explorer + independent fragment reader",
   technique="explicit enumeration (DFS over operation histories on the real builder objects, every prefix a checked state) under all configurations; differential read-back through both decoders and an independent wire-format reader",
-  text="All histories of sample additions / new-fragment operations up to the depth bound over 1 or 3 tracks, every API variant of each data class, OptimizeTrun on/off, Encode/EncodeSW and seven extra-box / mdat-header configurations (including a 64-bit mdat header) are executed on real Fragment/MediaSegment objects; the encoded init+segment is decoded by DecodeFile and DecodeFileSR (GetFullSamples per track) and by the independent reader, and bytes, size, duration, flags, composition offset and decode time of every sample are compared with what was added.",
-  note="Depth <= 2 with all configurations and 20 sample kinds (16 field classes + 4 boundary-value kinds: 2^31 / 2^32-1 durations and sizes-as-declared, negative and extreme composition offsets, all flag bits), depth 3 with the base configurations (quick: covering kinds; thorough: depth 3/4, 20 kinds). At most 2 fragments per segment, 3 tracks. Encode errors are tallied (no claim), panics are violations.",
+  text="All histories of sample additions / new-fragment operations up to the depth bound over 1 or 3 tracks, every API variant of each data class, OptimizeTrun on/off, Encode/EncodeSW and nine extra-box / mdat-header / init configurations (including a 64-bit mdat header and two sets of non-zero trex defaults) are executed on real Fragment/MediaSegment objects; the encoded init+segment is decoded by DecodeFile and DecodeFileSR (GetFullSamples per track, called twice; every GetSampleInterval; GetSampleNrFromTime of every sample) and by the independent reader, and bytes, size, duration, flags, composition offset and decode time of every sample are compared with what was added.",
+  note="Depth <= 2 with all configurations and 21 sample kinds (16 field classes + 5 boundary-value kinds incl. all-zero fields: 2^31 / 2^32-1 durations and sizes-as-declared, negative and extreme composition offsets, all flag bits), depth 3 with the base configurations (quick: covering kinds; thorough: depth 3/4, 21 kinds). At most 2 fragments per segment, 3 tracks. Encode errors are tallied (no claim), panics are violations.",
   design="3 C05"),
  "C11": dict(
   engine="E3 product enumerator + overlay drivers + independent fragment reader",
   technique="exhaustive enumeration of generated inputs x every target duration x every tool mode; tools' own entry points run in-process; outputs re-parsed by an independent reader and compared sample by sample",
-  text="Segmenter run() (single-track, -m, -lazy), Resegment(), MediaSegment.Fragmentify and combine-segs' combineInitSegments/combineMediaSegments are driven on every generated input (all sync subsets, duration tuples, chunkings, default modes, 32/64-bit mdat header) for every target duration from 1 tick to total+1; the concatenated per-track sample lists of all outputs (count, bytes, duration, flags, cto, decode time) are compared with the input, and every produced segment must start with a sync sample of the reference track.",
+  text="Segmenter run() (single-track, -m, -lazy), Resegment(), MediaSegment.Fragmentify and combine-segs' combineInitSegments/combineMediaSegments are driven on every generated input (all sync subsets, duration tuples, chunkings, default modes, 32/64-bit mdat header, non-sync samples as P-picture or open-GOP I-picture flags) for every target duration from 1 tick to total+1; the concatenated per-track sample lists of all outputs (count, bytes, duration, flags, cto, decode time) are compared with the input, and every produced segment must start with a sync sample of the reference track.",
   note="Inputs stay inside each tool's documented domain; tool errors are tallied, panics and silent differences are violations. Tracks have at most 5/6 samples, two tracks at most. Outputs are parsed by /verif/internal/ref/fragref (independent of mp4ff).",
   design="3 C11"),
  "C10": dict(
   engine="E3 product enumerator + overlay driver",
   technique="exhaustive enumeration of generated progressive files x every crop duration in ms, tool's own cropMP4 run in-process, output re-parsed by an independent box walker and table expansion",
-  text="Every generated file (all chunkings x sync subsets x duration tuples x table variants x 32/64-bit mdat header x tkhd duration understated; video+audio with every chunk merge order and two audio timescales) is cropped by the tool's unexported cropMP4 (overlay-injected test driver, /repo untouched) at every millisecond from 1 to total+2; each successful output is parsed by the independent walker/expansion and compared sample by sample (bytes, duration, cto, sync, sdtp, size), mdat tiling, chunk offsets and header durations.",
+  text="Every generated file (all chunkings x sync subsets x duration tuples x table variants x 32/64-bit mdat header x tkhd duration understated; video+audio with every chunk merge order and two audio timescales) and tracks of 3-4 samples with durations over {2^31, 2^32-1, 1} at timescales 1000/90000/10^7 (cropped at the boundary set of milliseconds around every sample start) is cropped by the tool's unexported cropMP4 (overlay-injected test driver, /repo untouched) at every millisecond from 1 to total+2; each successful output is parsed by the independent walker/expansion and compared sample by sample (bytes, duration, cto, sync, sdtp, size), mdat tiling, chunk offsets and header durations.",
   note="Only successful crops are judged (errors and panics of the tool are tallied in outcomes). Tracks have at most 5/6 samples; flag parsing of the command line is not exercised. The end time is computed exactly from the input tables.",
   design="3 C10"),
  "C08": dict(
   engine="E3 product enumerator",
   technique="exhaustive enumeration of generated files x all byte ranges x all sample intervals x work-buffer sizes, differential lazy vs in-memory vs file bytes",
-  text="For every generated progressive file (all chunkings of N <= 6 (quick) / 9 (thorough) samples x mdat before/after moov x 32/64-bit mdat header x 1-2 interleaved tracks x lead-in) with optional trailing boxes after mdat, and small fragmented files, both decode modes are run and compared on Info, sizes and positions; every non-empty (start,size) range inside every mdat payload is read with ReadData and CopyData in both modes and compared with the file slice; every sample interval is copied with CopySampleData for 8 work-buffer sizes; a lazily decoded mdat must encode to exactly its header; the segmenter example is run (overlay driver) in default and -lazy mode on every generated file and both outputs must be byte-identical.",
+  text="For every generated progressive file (all chunkings of N <= 6 (quick) / 9 (thorough) samples x mdat before/after moov x 32/64-bit mdat header x 1-2 interleaved tracks x lead-in) with optional trailing boxes after mdat, and small fragmented files, both decode modes are run and compared on Info, sizes and positions; every non-empty (start,size) range inside every mdat payload is read with ReadData and CopyData in both modes and compared with the file slice; every sample interval is copied with CopySampleData for 8 work-buffer sizes; a lazily decoded mdat must encode to exactly its header; every sequence of 2 (payload <= 9/13 bytes) or 3 (<= 3/5 bytes) calls from {ReadData, CopyData of every range of every mdat, CopySampleData of every interval, caller seeks} on ONE shared reader returns the file bytes; the segmenter example is run (overlay driver) in default and -lazy mode on every generated file and both outputs must be byte-identical.",
   note="Files are tiny (payload <= ~30 bytes) so that ALL ranges can be enumerated; behaviour that depends on payloads >= 4 GiB (automatic switch to largesize) is not reached. Fragmented files are produced by the library's own fragment API.",
   design="3 C08"),
  "C09": dict(
   engine="E3 product enumerator",
   technique="exhaustive enumeration of all run-length tables up to N samples, every query argument, vs naive per-sample expansion",
-  text="Every run-length encoding of every table for N <= 7 (quick) / 9 (thorough) samples is serialised by an independent raw writer, decoded by the library, and every query is asked for every sample number, every interval 1<=a<=b<=N and every time 0..total+1; answers are compared with the naive per-sample expansion. Combined queries (GetSampleData, GetRangesForSampleInterval, CopySampleData) run on generated files for all chunkings of N <= 5/6 samples x 8 table variants x 1-2 tracks.",
+  text="Every run-length encoding of every table for N <= 7 (quick) / 9 (thorough) samples is serialised by an independent raw writer, decoded by the library, and every query is asked for every sample number, every interval 1<=a<=b<=N and every time 0..total+1; answers are compared with the naive per-sample expansion. Combined queries (GetSampleData, GetRangesForSampleInterval, CopySampleData) run on generated files for all chunkings of N <= 5/6 samples x 8 table variants x 1-2 tracks; on the files with N <= 3/4 every ordered pair of queries is asked on a freshly decoded file and the second answer must equal the answer given alone (read-only queries are history independent).",
   note="Consistent tables only (as the statement says). Value alphabets are small plus boundaries ({1,2,3,2^31,2^32-1} durations/sizes, offsets {0,1,2,-1}); times for long tracks are the boundary set (every run edge +-1); GetTimeCode is compared in arbitrary precision; CopySampleData work buffers {0,1,2,3,4,6}; N is bounded. GetSampleNrAtTime reference follows the contract pinned by the repository's own unit test (N+1 strictly inside the last sample).",
   design="3 C09"),
  "C13": dict(
   engine="E6 product-state closure + E3",
   technique="explicit-state BFS to a fixpoint over (implementation private state x reference automaton) product states; exhaustive bounded op-sequence enumeration",
-  text="The escape state machines are explored to closure: every reachable pair (EBSPWriter/EBSPReader private state, reference escaper/unescaper state) is visited and on every transition (all widths 1..8, all values / all 256 next bytes) emitted bytes, returned bits and position counters equal the reference; a closed graph with matching transition outputs is a bisimulation, so writer~escaper and reader~unescaper for streams of any length. Value coders (fixed width 1..32, flags, ue/se Exp-Golomb, SEI ff-coding) are enumerated exhaustively over boundary alphabets up to depth 2 (quick) / 3 (thorough) x 8 misalignments.",
+  text="The escape state machines are explored to closure: every reachable pair (EBSPWriter/EBSPReader private state, reference escaper/unescaper state) is visited and on every transition (all widths 1..8, all values / all 256 next bytes) emitted bytes, returned bits and position counters equal the reference; a closed graph with matching transition outputs is a bisimulation, so writer~escaper and reader~unescaper for streams of any length. Value coders (fixed width 1..32, flags, ue/se Exp-Golomb, SEI ff-coding) are enumerated exhaustively over boundary alphabets up to depth 2 (quick) / 3 (thorough) x 8 misalignments; byte strings over {00,03,80,ff} up to length 9/11 go through Write(b,8)/ReadBytes at every bit alignment; byte-aligned fixed-width values (8..64 bit, signed/unsigned, slices, strings) through FixedSliceWriter/ByteWriter and back through FixedSliceReader/bits.Reader up to the same depth.",
   note="Trusted: the reflected private fields are the whole state (asserted from the struct field list at start-up); reference escaper is itself checked against the standard's three clauses on all strings over {00..04} up to length 8/10. Values outside the boundary alphabets and op sequences longer than the bound are not explored for the value coders.",
   design="3 C13"),
  "C18": dict(
